@@ -353,4 +353,57 @@ theorem allPathsL_nodup : (k : Kids) → (p : Path) → (i : Nat) → (allPathsL
     have := snoc_prefix_inj h1 h2
     omega
 end
+/- ## multisets of paths: equal after sorting iff permutations -/
+
+theorem pathLe_total : ∀ (a b : Path), (pathLe a b || pathLe b a) = true
+  | [], _ => by simp [pathLe]
+  | _ :: _, [] => by simp [pathLe]
+  | a :: p, b :: q => by
+    have ih := pathLe_total p q
+    simp only [pathLe, Bool.or_eq_true, Bool.and_eq_true, decide_eq_true_eq, beq_iff_eq] at ih ⊢
+    rcases Nat.lt_trichotomy a b with h | h | h
+    · exact Or.inl (Or.inl h)
+    · subst h
+      rcases ih with ih | ih
+      · exact Or.inl (Or.inr ⟨rfl, ih⟩)
+      · exact Or.inr (Or.inr ⟨rfl, ih⟩)
+    · exact Or.inr (Or.inl h)
+
+theorem pathLe_trans : ∀ (a b c : Path), pathLe a b = true → pathLe b c = true → pathLe a c = true
+  | [], _, _, _, _ => by simp [pathLe]
+  | _ :: _, [], _, h, _ => by simp [pathLe] at h
+  | _ :: _, _ :: _, [], _, h => by simp [pathLe] at h
+  | a :: p, b :: q, c :: r, h1, h2 => by
+    simp only [pathLe, Bool.or_eq_true, Bool.and_eq_true, decide_eq_true_eq, beq_iff_eq] at h1 h2 ⊢
+    rcases h1 with h1 | ⟨h1, h1'⟩
+    · rcases h2 with h2 | ⟨h2, _⟩
+      · exact Or.inl (by omega)
+      · exact Or.inl (by omega)
+    · rcases h2 with h2 | ⟨h2, h2'⟩
+      · exact Or.inl (by omega)
+      · exact Or.inr ⟨by omega, pathLe_trans p q r h1' h2'⟩
+
+theorem pathLe_antisymm : ∀ (a b : Path), pathLe a b = true → pathLe b a = true → a = b
+  | [], [], _, _ => rfl
+  | [], _ :: _, _, h => by simp [pathLe] at h
+  | _ :: _, [], h, _ => by simp [pathLe] at h
+  | a :: p, b :: q, h1, h2 => by
+    simp only [pathLe, Bool.or_eq_true, Bool.and_eq_true, decide_eq_true_eq, beq_iff_eq] at h1 h2
+    rcases h1 with h1 | ⟨h1, h1'⟩
+    · rcases h2 with h2 | ⟨h2, _⟩ <;> omega
+    · rcases h2 with h2 | ⟨_, h2'⟩
+      · omega
+      · rw [h1, pathLe_antisymm p q h1' h2']
+
+theorem sortPaths_perm {l₁ l₂ : List Path} (h : l₁.Perm l₂) : sortPaths l₁ = sortPaths l₂ := by
+  unfold sortPaths
+  apply List.Perm.eq_of_pairwise (le := fun a b => pathLe a b = true)
+  · intro a b _ _ h1 h2; exact pathLe_antisymm a b h1 h2
+  · exact List.pairwise_mergeSort pathLe_trans pathLe_total l₁
+  · exact List.pairwise_mergeSort pathLe_trans pathLe_total l₂
+  · exact (List.mergeSort_perm l₁ pathLe).trans (h.trans (List.mergeSort_perm l₂ pathLe).symm)
+
+theorem sameBag_of_perm {l₁ l₂ : List Path} (h : l₁.Perm l₂) : sameBag l₁ l₂ = true := by
+  simp [sameBag, sortPaths_perm h]
+
 end Gotree.C03
